@@ -40,6 +40,24 @@ def normalNorm (log abs : α → α) (twoPi : α) (det : α) (d : α) : α := 0.
 def laplaceNorm (log : α → α) (zero : α) (b : List α) : α := sumList zero (b.map (fun bi => log (2.0 * bi)))
 end
 
+/-! Life cycle of the normalisation constant of a distribution object (`normalization_constant`,
+    0.0 from the constructor). `normalize()` *assigns* the constant; `Mixture.__init__` calls
+    `normalize()` on each of its components (hmclab never sets the `normalized` flag, so it always
+    does); evaluations leave it alone. -/
+inductive NormOp where
+  | normalize | mixtureInit | evaluate
+deriving DecidableEq, Repr
+
+section
+variable {α : Type}
+def normStep (c : α) (s : α) : NormOp → α
+  | .normalize => c
+  | .mixtureInit => c
+  | .evaluate => s
+/-- the constant an object carries after a history of operations (`c` = the textbook constant) -/
+def normRun (c zero : α) (ops : List NormOp) : α := ops.foldl (normStep c) zero
+end
+
 section bounds
 variable {α : Type} [LT α] [DecidableLT α]
 
